@@ -402,9 +402,9 @@ def handleWriteHeader (a : Acc) (h : ObjHdr) : Acc × Nat :=
       (emitCb ({ a.1 with lastRecorded := none }, a.2) (.writeTime ts), timeResultIin a.1)
   else (a, iin2NoFunc)
 
-/-- `handle_write`: the IIN2 of the LAST header wins (assignment, not OR) -/
+/-- `handle_write`: the IIN2 results of all headers are accumulated (`iin2 |= …`) -/
 def handleWrite (a : Acc) (seq : Nat) (hs : List ObjHdr) : Acc × Resp :=
-  let (a, iin2) := hs.foldl (fun (p : Acc × Nat) h => let (a', i) := handleWriteHeader p.1 h; (a', i)) (a, 0)
+  let (a, iin2) := hs.foldl (fun (p : Acc × Nat) h => let (a', i) := handleWriteHeader p.1 h; (a', p.2 ||| i)) (a, 0)
   (a, emptySolicited seq iin2)
 
 def handleFreezeHeader (a : Acc) (kind : FreezeKind) (h : ObjHdr) : Acc × Nat :=
@@ -682,7 +682,7 @@ def checkUnsolicited (a : Acc) : Option (Acc ⊕ (Acc × NextIdle)) :=
     | none => none
     | some a => some (.inl a)
 
-/-- the tail of `check_unsolicited` once a series ended: 0 = confirmed, 1 = timeout / return to idle -/
+/-- the tail of `check_unsolicited` once a series ended: confirmed, or timeout / return to idle -/
 def afterUnsolSeries (a : Acc) (isNull : Bool) (confirmed : Bool) : Acc × NextIdle :=
   if isNull then
     (({ a.1 with unsol := if confirmed then .ready none else .nullRequired }, a.2), .noSleep)
@@ -690,8 +690,9 @@ def afterUnsolSeries (a : Acc) (isNull : Bool) (confirmed : Bool) : Acc × NextI
     let a := clearWrittenEvents a
     (({ a.1 with unsol := .ready none }, a.2), .noSleep)
   else
+    -- `Timeout` / `ReturnToIdle` of a data series: `database.reset()` (nothing it carried stays `Written`)
     let t := a.1.now + a.1.cfg.rdelay
-    (({ a.1 with unsol := .ready (some t) }, a.2), .until t)
+    (({ a.1 with db := a.1.db.reset, unsol := .ready (some t) }, a.2), .until t)
 
 /-- `handle_deferred_read`: `inl` = blocked in a confirm wait; `none` = panic -/
 def handleDeferredRead (a : Acc) (next : NextIdle) : Option (Acc ⊕ Acc) :=
@@ -811,7 +812,9 @@ def solWaitOnFragment (a : Acc) (series : Series) (deadline : Nat) (cont : SolCo
       let (s, r, next) := formatReadResponse a.1 false ecsn 0
       match writeSolicited (s, a.2) f.src r with
       | none => die a
-      | some (a, _) =>
+      | some (a, r) =>
+        -- the fragment just sent becomes the stored response: a repeat of the READ echoes it
+        let a : Acc := ({ a.1 with lastReq := a.1.lastReq.map (fun lr => { lr with response := some r }) }, a.2)
         match next with
         | none => resumeAfterSol a cont
         | some sr => .blocked ({ a.1 with mode := .solWait sr (a.1.now + a.1.cfg.ctimeout) cont }, a.2)
@@ -993,7 +996,9 @@ def Outstation.step (env : OEnv) (s : OState) (inp : OInput) : OState × List OO
     finishStep (settle 8 (dispatch ({ s with db := db, notified := true }, [.line s!"add {if ok then 1 else 0}"])))
   | .cut =>
     if s.mode matches .dead then (s, []) else
-    let s := { s with lastReq := none, select := none, deferred := none, pending := none, mode := .idle .noSleep }
+    -- `OutstationSession::run` on a session error: `state.reset()` and `database.reset()`
+    let s := { s with db := s.db.reset, lastReq := none, select := none, deferred := none, pending := none,
+                      mode := .idle .noSleep }
     finishStep (settle 8 (runPass passFuel (s, [.line "session link stdio UnexpectedEof"])))
 
 end Dnp3
